@@ -24,6 +24,10 @@ class Ref:
         self.g = g
         self.kind = kind
         self.rules = {n: e for n, _, e in g['rules']}
+        if g.get('renamed'):             # the reference works on the names of the templates
+            import enginegen as _G
+            old, new = g['renamed']
+            self.rules = {n: e for n, _, e in _G.rename_rule(g['rules'], new, old)}
         first = self.rules['expr']
         if E.kind(first) == 'call':          # aliased
             first = self.rules['e']
@@ -195,8 +199,9 @@ def shard(col, shard_i, ngrammars, ninputs, exhaustive_len):
                     inner = f'({inner}{rng.choice(["+", "-", "*"])}{d % 3 + 1})'
                 texts = texts + [inner, inner + rng.choice(['+2', '-x', '!', '+']), f'{inner}+{inner}']
         if kind == 'selector':
-            o1 = [x[1] for x in E.walk(dict((n, e) for n, _, e in g['rules'])['sum']) if E.kind(x) == 'tok'][0]
-            o2 = [x[1] for x in E.walk(dict((n, e) for n, _, e in g['rules'])['term']) if E.kind(x) == 'tok'][0]
+            tn = dict([g['renamed']]) if g.get('renamed') else {}
+            o1 = [x[1] for x in E.walk(dict((n, e) for n, _, e in g['rules'])[tn.get('sum', 'sum')]) if E.kind(x) == 'tok'][0]
+            o2 = [x[1] for x in E.walk(dict((n, e) for n, _, e in g['rules'])[tn.get('term', 'term')]) if E.kind(x) == 'tok'][0]
             for depth in (1, 2, 3, 5):
                 inner = '1'
                 for d in range(depth):
